@@ -26,7 +26,7 @@ SWITCHES = list(itertools.product((True, False), repeat=3))  # headers, inputs, 
 NUM = re.compile(r"^-?\d+\.\d+$|^nan$|^-?inf$")
 
 
-def build(n: int):
+def build(n: int, disabled_last: bool = False):
     inputs = []
     for k in range(n):
         lo, hi = RANGES[k]
@@ -44,6 +44,8 @@ def build(n: int):
     rules = [f"if {ante_lo} then o1 is a", f"if {ante_hi} then o1 is b and o2 is b", "if i1 is mid then o1 is c and o2 is a"]
     rb = fl.RuleBlock("rb", conjunction=fl.AlgebraicProduct(), disjunction=fl.Maximum(), implication=fl.Minimum(),
                       activation=fl.General(), rules=[fl.Rule.create(r) for r in rules])
+    if disabled_last:
+        inputs[-1].enabled = False  # a disabled input variable is still a column of the grid
     return fl.Engine(f"e{n}", input_variables=inputs, output_variables=[out1, out2], rule_blocks=[rb])
 
 
@@ -59,6 +61,7 @@ def plan(tier: str, seed: int):
         for part in range(8):
             shards.append(("scope", n, part, 8))
     shards += [("reader", 2, p, 4) for p in range(4)]
+    shards += [("scope-disabled", n, p, 2) for n in (2, 3) for p in range(2)]
     return shards
 
 
@@ -134,10 +137,15 @@ def run_scope(acc: Acc, engine, oracle: Oracle, n: int, v: int, scope: str, comb
         if not inputs and not outputs:
             continue  # no column selected: nothing to tabulate, nothing demanded
         case = {"inputs_n": n, "values": v, "scope": scope, "headers": headers, "input_values": inputs,
-                "output_values": outputs, "separator": sep, "decimals": d}
+                "output_values": outputs, "separator": sep, "decimals": d,
+                "disabled_last_input": not engine.input_variables[-1].enabled}
         acc.case((n, v, scope, headers, inputs, outputs, sep, d), nontrivial=len(rows) > 1)
         acc.transitions += 1
         exporter = fl.FldExporter(separator=sep, headers=headers, input_values=inputs, output_values=outputs)
+        # the engine has been used before the export (finite outputs, lock-previous on o2): the dataset must not depend on it
+        for iv in engine.input_variables:
+            iv.value = iv.maximum
+        engine.process()
         fl.settings.decimals = d
         try:
             text = exporter.to_string_from_scope(engine, v, getattr(fl.FldExporter.ScopeOfValues, scope))
@@ -193,9 +201,14 @@ def run_shard(tier: str, seed: int, shard):
     kind, n, part, parts = shard
     acc = Acc(ID)
     reset_settings()
-    engine = build(n)
+    engine = build(n, disabled_last=(kind == "scope-disabled"))
     oracle = Oracle(engine)
-    if kind == "scope":
+    if kind == "scope-disabled":
+        for idx, v in enumerate(range(1, 70 if tier == "quick" else 300)):
+            if idx % parts == part:
+                acc.guard({"inputs_n": n, "values": v, "scope": "AllVariables", "disabled_last_input": True}, run_scope, acc, engine,
+                          oracle, n, v, "AllVariables", combos_for(v, idx)[:1])
+    elif kind == "scope":
         big, each = limits(tier, n)
         jobs = [(v, "AllVariables") for v in range(1, big + 1)] + [(v, "EachVariable") for v in range(1, each + 1)]
         for idx, (v, scope) in enumerate(jobs):
@@ -248,7 +261,7 @@ def replay(case: dict):
         acc.guard(case, run_reader, acc, engine, Oracle(engine), tuple(syms), case["skip_lines"])
     else:
         n = case["inputs_n"]
-        engine = build(n)
+        engine = build(n, disabled_last=bool(case.get("disabled_last_input")))
         combo = [((case.get("headers", True), case.get("input_values", True), case.get("output_values", True)),
                   case.get("separator", " "), case.get("decimals", 3))]
         acc.guard(case, run_scope, acc, engine, Oracle(engine), n, case["values"], case["scope"], combo)
